@@ -133,6 +133,7 @@ type Interp struct {
 	marshalTab map[uint64]marshalEntry
 	marshalSeq uint64
 	marshalByKey map[string]uint64
+	pools map[string][]Value
 	fpBitsMemo map[*Term]*Term // per path: math.Float64bits of the same FP term yields the same bits variable
 
 	// sinks
